@@ -1,4 +1,4 @@
-CONSTANT MaxN = 6
+CONSTANTS MaxN = 6 MaxNHist = 5
 INIT Init
 NEXT Next
 INVARIANT Emitted
